@@ -240,39 +240,21 @@ theorem cfindex_connect (Hk : Bytes → Bytes → Nat) (dsha : Bytes → Bytes) 
     ∃ f ph, buildBasicFilter Hk bh outs prevs = .ok f ∧
       ((prev = zeroHash ∧ ph = zeroHash) ∨ (prev ≠ zeroHash ∧ ∃ e, idx.lookup prev = some e ∧ ph = e.header)) ∧
       idx'.lookup bh = some ⟨bh, f.nBytes, filterHash dsha f, filterHeader dsha (filterHash dsha f) ph⟩ ∧
-      ∀ x, x ≠ bh → idx'.lookup x = idx.lookup x := by
-  unfold CfIndex.connect at h
-  cases hf : buildBasicFilter Hk bh outs prevs with
-  | error e => rw [hf] at h; cases h
-  | ok f =>
-    rw [hf] at h
-    simp only [] at h
-    by_cases hz : prev = zeroHash
-    · have hz' : (prev == zeroHash) = true := by simp [hz]
-      rw [hz'] at h
-      simp only [if_true] at h
-      injection h with h; subst h
-      exact ⟨f, zeroHash, rfl, Or.inl ⟨hz, rfl⟩, Lemmas.lookup_cons_self _ _,
-        fun x hx => by
-          rw [CfIndex.lookup, List.find?_cons]
-          have : (bh == x) = false := by simp; exact fun e => hx e.symm
-          simp only [this]
-          exact Lemmas.lookup_filter_ne idx bh x hx⟩
-    · have hz' : (prev == zeroHash) = false := by simp [hz]
-      rw [hz'] at h
-      simp only [Bool.false_eq_true, if_false] at h
-      cases hl : idx.lookup prev with
-      | none => rw [hl] at h; cases h
-      | some e =>
-        rw [hl] at h
-        simp only [Option.map_some] at h
-        injection h with h; subst h
-        exact ⟨f, e.header, rfl, Or.inr ⟨hz, e, rfl, rfl⟩, Lemmas.lookup_cons_self _ _,
-          fun x hx => by
-            rw [CfIndex.lookup, List.find?_cons]
-            have : (bh == x) = false := by simp; exact fun e => hx e.symm
-            simp only [this]
-            exact Lemmas.lookup_filter_ne idx bh x hx⟩
+      ∀ x, x ≠ bh → idx'.lookup x = idx.lookup x :=
+  Lemmas.connect_spec Hk dsha idx idx' bh prev outs prevs h
+
+/-- BIP157 through the index: connecting (from the empty index or on top of a stored block `first`) a list
+    of blocks, each naming its predecessor as PrevBlock, with distinct non-zero hashes, leaves the header
+    chain `headerChain dsha firstHeader (filter hashes)` in the header bucket. -/
+theorem cfindex_header_chain (Hk : Bytes → Bytes → Nat) (dsha : Bytes → Bytes) (bs : List CfBlockIn)
+    (idx idx' : CfIndex) (first firstHeader : Bytes)
+    (hfirst : (first = zeroHash ∧ firstHeader = zeroHash) ∨
+      (first ≠ zeroHash ∧ ∃ e, idx.lookup first = some e ∧ e.header = firstHeader))
+    (hlink : cfLinked first bs) (hnd : (bs.map (·.bh)).Nodup) (hnz : ∀ b ∈ bs, b.bh ≠ zeroHash)
+    (hnot : first ∉ bs.map (·.bh)) (h : CfIndex.connectAll Hk dsha idx bs = some idx') :
+    bs.map (fun b => (idx'.lookup b.bh).map (·.header)) =
+      (headerChain dsha firstHeader (bs.map (cfFilterHash Hk dsha))).map some :=
+  Lemmas.connectAll_headers Hk dsha bs idx idx' first firstHeader hfirst hlink hnd hnz hnot h
 
 /-- `DisconnectBlock` removes exactly that block's three entries. -/
 theorem cfindex_disconnect (idx : CfIndex) (bh : Bytes) :
